@@ -217,6 +217,47 @@ def raw_records(seed):
     return recs
 
 
+def be_file_raw_records(seed):
+    """raw timestamps of big-endian segments (which TdmsWriter cannot write): files laid out by the independent encoder,
+    contiguous and interleaved, two chunks, read eagerly and lazily"""
+    import struct
+    from nptdms import TdmsFile
+    from . import enc
+    T, X = "/'g'/'t'", "/'g'/'x'"
+    recs = []
+    for il in (False, True):
+        objs = [{"p": T, "has": True, "n": 3, "ty": "TimeStamp"}, {"p": X, "has": True, "n": 3, "ty": "Int16"}]
+        seg = {"meta": True, "newlist": True, "be": True, "il": il, "k": 2,
+               "listed": [{"p": o["p"], "kind": "full"} for o in objs], "objs": objs}
+        e = enc.encode({"segs": [seg, dict(seg, be=False)]}, seed)
+        pairs = [struct.unpack("<Qq", v)[::-1] for v in e.values[T]]        # (seconds, fractions)
+        stages = []
+        f1 = TdmsFile.read(io.BytesIO(e.data), raw_timestamps=True)
+        stages.append(("be-file-read", f1["g"]["t"][:]))
+        with TdmsFile.open(io.BytesIO(e.data), raw_timestamps=True) as f2:
+            ch = f2["g"]["t"]
+            stages.append(("be-file-open-slice", ch[:]))
+            stages.append(("be-file-open-chunks", np.concatenate([c[:] for c in ch.data_chunks()])))
+            stages.append(("be-file-open-index", [ch[i] for i in range(len(pairs))]))
+        for stage, data in stages:
+            if len(data) != len(pairs):
+                raise AssertionError("%d timestamps read back as %d (%s)" % (len(pairs), len(data), stage))
+            for i, (sec, fr) in enumerate(pairs):
+                t = data[i]
+                recs.append({"kind": "raw", "sec": limbs(sec + BIAS_S), "frac": limbs(fr),
+                             "sec_back": limbs(int(t.seconds if hasattr(t, "seconds") else t["seconds"]) + BIAS_S),
+                             "frac_back": limbs(int(t.second_fractions if hasattr(t, "second_fractions")
+                                                    else t["second_fractions"])),
+                             "scalar": bool(isinstance(t, TdmsTimestamp_()) or "index" not in stage),
+                             "dbg": [stage + ("-il" if il else ""), "channel", sec, fr]})
+    return recs
+
+
+def TdmsTimestamp_():
+    from nptdms.timestamp import TdmsTimestamp
+    return TdmsTimestamp
+
+
 def track_records(seed):
     """time_track() of waveform channels with exactly representable offset / increment"""
     import random
